@@ -42,7 +42,7 @@ func (h c08Hook) spec() fenvHook {
 //   - a call whose await point belongs to a later transition stays pending and is cancelled by teardown;
 //     every other started call is collected (nothing of it is left pending).
 //verif:entry HarnessTriggerAndAwaitOrder unwind=64 preempt=1 reach=ordered,pending stub=github.com/AliceO2Group/Control/common/utils.TimeTrack nosched=github.com/AliceO2Group/Control/core/the.mu
-//verif:thorough HarnessTriggerAndAwaitOrder preempt=2
+//verif:thorough HarnessTriggerAndAwaitOrder preempt=1 paths=1000000
 func HarnessTriggerAndAwaitOrder() {
 	a := c08Hook{name: "a", trigger: vrt.IntRange("a.trigger", 0, 11)}
 	a.await = vrt.IntRange("a.await", 0, 12)
@@ -54,9 +54,6 @@ func HarnessTriggerAndAwaitOrder() {
 	b.await = b.trigger
 	rec := &fenvRec{}
 	rec.onCall = func(c *callable.Call) error {
-		if vrt.Tier() == 1 {
-			vrt.Yield() // the call takes an arbitrary time
-		}
 		return nil
 	}
 	env := fenvNew(&fenvConf{}, rec, "DEPLOYED", []fenvHook{a.spec(), b.spec()})
